@@ -170,6 +170,9 @@ OrigClauses(m, ev, f, def) ==
         <<"C09.compat_flags_zero_signed_iff_key", f.v = 1 \/ (f.cflag = 0 /\ f.iflag = (IF keyed THEN 1 ELSE 0))>>,
         <<"C09.per_link_sequence_gapless", seqOk>>,
         <<"C09.checksum_for_crc_extra", f.ck = Checksum(f, CrcExtra(FromGo(Defs[def])))>>,
+        <<"C09.v1_payload_is_exactly_the_base_fields", f.v = 2 \/ Len(f.payload) = SizeBase(FromGo(Defs[def]))>>,
+        <<"C09.v2_payload_truncated_never_longer_than_extended", f.v = 1 \/ (Len(f.payload) <= SizeExt(FromGo(Defs[def]))
+                                                                        /\ (Len(f.payload) <= 1 \/ f.payload[Len(f.payload)] # 0))>>,
         <<"C06.node_signature_valid", ~(keyed /\ IsSigned(f)) \/ f.sig = Sign(m.conf.outkey, f)>>,
         <<"C06.node_link_id_constant", ~(keyed /\ IsSigned(f)) \/ Get(m.linkId, Wire(ev), f.link) = f.link \/ fresh>>,
         <<"C07.node_timestamps_never_decrease", ~(keyed /\ IsSigned(f)) \/ fresh \/ ~Lt(f.ts, Get(m.lastTs, Wire(ev), <<0>>))>> >>
@@ -382,7 +385,9 @@ OnFinal(m, ev) ==
       m2 == Check(m1, "C12.listening_ports_released", ev.ports_rebound, ev)
       m3 == Check(m2, "C12.custom_transport_closed_exactly_once", initFailed \/ \A i \in 1..Len(ev.custom_close) : ev.custom_close[i] = 1, ev)
       m4 == Check(m3, "C12.event_channel_closed_after_close", initFailed \/ ev.events_closed, ev)
-      m5 == Check(m4, "C12.close_returns", initFailed \/ m.closeRet, ev)
+      m4b == Check(m4, "C12.accepted_and_dialled_connections_released",
+                   ev.conns_not_released = 0 /\ ev.serial_not_closed = 0, ev)
+      m5 == Check(m4b, "C12.close_returns", initFailed \/ m.closeRet, ev)
   IN IF initFailed THEN m5
      ELSE FinalIdle(FinalReconnect(FinalBacklog(FinalWriteFault(FinalFanout(FinalAuto(m5, ev), ev), ev), ev), ev), ev)
 
